@@ -22,9 +22,34 @@ Definition asDb (s : sx) : option cdb :=
 
 Definition ofPair (p : nat * nat) : sx := L [ofNat (fst p); ofNat (snd p)].
 
+(* a Db whose coordinates may be undefined: the cdb (undefined coordinates read as 0) and one flag per sample "all coordinates defined" *)
+Definition odefined (o : option Q) : bool := match o with Some _ => true | None => false end.
+Definition ovalue (o : option Q) : Q := match o with Some q => q | None => 0%Q end.
+Definition asDbC (s : sx) : option (cdb * list bool) :=
+  match s with
+  | L [c; z; v; _; sel] =>
+      match asListOf (asListOf asOQ) c, asListOf (asListOf asOQ) z, asListOf (asListOf asOQ) v, asListOf asB sel with
+      | Some c', Some z', Some v', Some s' =>
+          let n := length (hd [] c') in
+          Some ({| d_coords := transpose_cols (map (map ovalue) c'); d_sel := s'; d_z := z'; d_verr := v' |},
+                map (fun i => forallb (fun col => odefined (nth i col None)) c') (seq 0 n))
+      | _, _, _, _ => None
+      end
+  | _ => None
+  end.
+Definition b3 (k : nat) : bool * bool * bool := (Nat.odd k, Nat.odd (Nat.div2 k), Nat.odd (Nat.div2 (Nat.div2 k))).
+
 (* case: (ndim nvar db1 db2|() tinvs ivar0 jvar0 nbgh1 nbgh2) *)
 Definition run (c : sx) : sx :=
   match c with
+  | L [I 13%Z; nv; d; iv0; nb] =>
+      (* active-rank lists for the 8 combinations (useSel, useVerr, useCoord), bit 0 = useSel *)
+      match asNat nv, asDbC d, asZ iv0, asListOf asNat nb with
+      | Some nvar, Some (db, cdef), Some ivar0, Some nbgh =>
+          let ivars := active_vars nvar ivar0 in
+          ofList (fun k => let '(us, uv, uc) := b3 k in ofList (ofList ofNat) (multiple_ranks_c cdef db ivars nbgh us uv uc)) (seq 0 8)
+      | _, _, _, _ => sx_error 3
+      end
   | L [nd; nv; d1; d2; ts; iv0; jv0; n1; n2] =>
       match asNat nd, asNat nv, asDb d1, asListOf (asListOf (asListOf asQ)) ts, asZ iv0, asZ jv0,
             asListOf asNat n1, asListOf asNat n2 with
@@ -38,6 +63,7 @@ Definition run (c : sx) : sx :=
               let rows := flat ivars (multiple_ranks db1 ivars nbgh1 true false) in
               let cols := flat jvars (multiple_ranks db2 jvars nbgh2 true false) in
               let rowss := flat ivars (multiple_ranks db1 ivars nbgh1 true true) in
+              let colss := flat jvars (multiple_ranks db2 jvars nbgh2 true true) in
               let structs := map (fun T => {| c_tinv := T; c_sill := [] |}) tinvs in
               let same :=
                 forallb (fun s =>
@@ -49,7 +75,8 @@ Definition run (c : sx) : sx :=
                     qeqb (dist2 ndim (p1A_get P1 (snd cc)) (p1A_get P1 (snd r)))
                          (aniso_d2 ndim (c_tinv s) (coords_at db1 (snd r)) (coords_at db1 (snd cc)))) rowss) rowss) structs in
               L [L [ofList ofPair rows; ofList ofPair cols]; L [ofList ofPair rowss; ofList ofPair rowss]; ofB same;
-                 ofList (fun s => ofList (ofList ofQ) (p1As ndim s db1)) structs]
+                 ofList (fun s => ofList (ofList ofQ) (p1As ndim s db1)) structs;
+                 L [ofList ofPair rowss; ofList ofPair colss]]
           end
       | _, _, _, _, _, _, _, _ => sx_error 1
       end
